@@ -125,7 +125,12 @@ let eval_line (fields : string list) : (string * string) list =
       | RPanic -> fail "oracle.C05" "decoding panicked"
       | RErr -> ()
       | ROk (v, re, fp) ->
-        if M.canon_type t && re <> bs then fail "oracle.C02" ("re-encoding=" ^ hex_of_bytes re);
+        (* fp = "na": the Rust type encodes under another schema than it decodes (asymmetric skip
+           flags); its own re-encoding says nothing about the decode-side schema, so canonicity is
+           judged with the reference serializer instead *)
+        if M.canon_type t && fp <> "na" && re <> bs then fail "oracle.C02" ("re-encoding=" ^ hex_of_bytes re);
+        if M.canon_type t && fp = "na" && M.has_ty t v && M.spec_enc t v <> bs then
+          fail "oracle.C02" ("reference re-encoding=" ^ hex_of_bytes (M.spec_enc t v));
         if M.canon_type t then begin
           if not (M.valid_b t bs v) then
             fail "oracle.C04" ("accepted bytes are not the serialization of the returned value; spec_enc=" ^
